@@ -452,6 +452,27 @@ func runC29(r *lib.Run) {
 					if wild != "" || (nin == 0 && (fi.Kind == lib.KList || fi.Kind == lib.KOrdered)) {
 						r.Hit("resolved-ok:wildcard")
 					}
+					// every call must return the node's path, whatever the caller did with an
+					// earlier result: overwrite the keys of the path just returned (as a client
+					// building a wildcard query from it would) and resolve the same node again
+					edited := 0
+					for _, e := range gp.GetElem() {
+						for k := range e.Key {
+							e.Key[k] = "edited-by-caller"
+							edited++
+						}
+						e.Name = e.Name + "-edited"
+					}
+					if edited > 0 {
+						var gp2 *gpb.Path
+						var errs2 []error
+						if !r.Guard("ResolvePath", w, func() { gp2, _, errs2 = ygot.ResolvePath(ps) }) {
+							r.Hit("re-resolved-after-caller-edit")
+							if got2 := gnmiElems(gp2); len(errs2) > 0 || got2 != want {
+								r.Violate("resolved-path-differs", "second-resolve-after-caller-edited-first-result", fmt.Sprintf("%s resolved to %s the second time (errors %v), expected %s", chain, got2, errs2, want), map[string]interface{}{"cfg": name, "chain": chain, "got": got2, "want": want})
+							}
+						}
+					}
 				}
 				key := chain
 				if nextSI != nil && !visited[key] {
@@ -470,7 +491,7 @@ func runC29(r *lib.Run) {
 	if !any {
 		r.Inconclusive("no configuration with path structs is linked")
 	}
-	r.RequireCov("configuration", "configuration:vtoc/C-paths", "configuration:vtoc/C-paths-builder", "configuration:vtoc/C-paths-nowild", "configuration:vtoc/C-paths-simplify", "configuration:vtocu/C-paths-wrapper", "key-arg:uint64:19-20-digits", "accessor:leaf", "accessor:list", "accessor:container", "resolved-ok", "resolved-ok:wildcard")
+	r.RequireCov("configuration", "configuration:vtoc/C-paths", "configuration:vtoc/C-paths-builder", "configuration:vtoc/C-paths-nowild", "configuration:vtoc/C-paths-simplify", "configuration:vtocu/C-paths-wrapper", "key-arg:uint64:19-20-digits", "accessor:leaf", "accessor:list", "accessor:container", "resolved-ok", "resolved-ok:wildcard", "re-resolved-after-caller-edit")
 }
 
 func argStrings(args []reflect.Value) []string {
